@@ -107,9 +107,9 @@ def run(tier):
     n0 = 0
     plan = [("full-len1", full1, 1, None),
             ("core-len2-commit", core2, 1 if thorough else 5, None),
-            ("core-len3", core3, 10, None if thorough else 5000),
-            ("full-len2", full2, 10, 100000 if thorough else 4000),
-            ("core-len4", core4, 20, 40000)]
+            ("core-len3", core3, 10, 100000 if thorough else 5000),
+            ("full-len2", full2, 10, 70000 if thorough else 4000),
+            ("core-len4", core4, 20, 30000)]
     for name, sch, every, limit in plan:
         if not sch:
             if name != "core-len4" or thorough:
@@ -179,8 +179,9 @@ def run(tier):
              rule="TLC enumerates all sequences of <= 3 (thorough 4) mutator calls over an alphabet "
                   "of 20 (core) / ~115 (full, length <= 2) call shapes from 10 prior states with "
                   "commit+reload in between, checking the model rules on every state; the "
-                  "sequences (quick: all of length <= 2 over the core alphabet and of length 1 "
-                  "over the full one, seeded samples of the longer ones) run on a Task obtained "
+                  "sequences (all of length <= 2 over the core alphabet and of length 1 over the "
+                  "full one, seeded samples of the longer families: quick 5k/4k, thorough "
+                  "100k/70k/30k) run on a Task obtained "
                   "from a real replica; after each call the object's map and the recorded "
                   "operations with old values, after each commit the stored task, working-set "
                   "membership and every reader, are validated by TLC against the specification; "
